@@ -8,6 +8,7 @@ import (
 	"math/rand"
 	"strings"
 	"sync"
+	"sync/atomic"
 
 	serrors "github.com/jamf/regatta/storage/errors"
 	"github.com/jamf/regatta/storage/logreader"
@@ -188,6 +189,8 @@ func (c *l1) flush() {
 
 var cacheSizes = []int{1, 2, 3, 8, 100}
 
+var l1Samples atomic.Int32
+
 func runL1(r *ev.Run, rep *reporter, id caseID) {
 	rnd := rand.New(rand.NewSource(id.Seed))
 	c := &l1{r: r, rep: rep, id: id, rnd: rnd, cnt: map[string]int64{}, dst: map[string]map[string]struct{}{}}
@@ -310,7 +313,7 @@ func runL1(r *ev.Run, rep *reporter, id caseID) {
 	}
 	r.Distinct("l1_cache_size", fmt.Sprint(c.cacheSize))
 	r.Distinct("l1_maxsize", fmt.Sprint(c.maxSize))
-	if c.partial && c.afterComp {
+	if c.partial && c.afterComp && l1Samples.Add(1) <= 3 {
 		r.Sample(map[string]any{"layer": 1, "case_seed": id.Seed, "setup": c.setup, "steps": c.render(14)})
 	}
 }
@@ -546,8 +549,10 @@ func (c *l1) query(s *shardSt, a, b uint64) (int, bool) {
 	st := step{kind: "query", shard: s.id, a: a, b: b, shape: shape, c: sum(ce, cerr), s: sum(se, serr), reads: reads,
 		first: s.log.first(), last: s.log.last, stale: s.staleFirst, lagged: b != s.applied+1}
 	c.steps = append(c.steps, st)
-	c.count("l1_queries", 1)
-	if s.compacted {
+	if a < b {
+		c.count("l1_queries", 1)
+	}
+	if s.compacted && a < b {
 		c.afterComp = true
 		c.count("l1_queries_after_compaction", 1)
 	}
@@ -636,6 +641,11 @@ func (c *l1) query(s *shardSt, a, b uint64) (int, bool) {
 }
 
 func (c *l1) fail(sig, what string, goOn bool) {
+	if c.interleave {
+		c.count("l1_violations_with_several_calls_in_progress["+sig+"]", 1)
+	} else {
+		c.count("l1_violations_with_one_call_at_a_time["+sig+"]", 1)
+	}
 	c.rep.violation(sig, func() (string, any) {
 		w := witness{Case: c.id, Setup: c.setup, Steps: c.render(0), At: c.steps[len(c.steps)-1].String()}
 		return what + " — " + w.At, w
@@ -658,6 +668,12 @@ func (c *l1) judge(kind string, s *shardSt, a, b uint64, es []raftpb.Entry, err 
 		return true
 	}
 	first := log.first()
+	if kind == "cached" && err == nil && len(es) == 0 && shape.OK && shape.N > 0 && shape.Lo == b {
+		// (also when a is already compacted: the reader never looked at the log)
+		c.fail(sigEndEqLo, fmt.Sprintf("range [%d,%d) is non-empty (log [%d..%d]) and the cache holds [%d..%d]: cached reader answered zero entries and no error without reading the log",
+			a, b, first, log.last, shape.Lo, shape.Hi), true)
+		return false
+	}
 	if a < first {
 		stale := kind == "cached" && a >= s.staleFirst
 		if cls == "ErrLogAhead" {
@@ -680,9 +696,6 @@ func (c *l1) judge(kind string, s *shardSt, a, b uint64, es []raftpb.Entry, err 
 	}
 	if len(es) == 0 {
 		switch {
-		case kind == "cached" && shape.OK && shape.N > 0 && shape.Lo == b:
-			c.fail(sigEndEqLo, fmt.Sprintf("range [%d,%d) is non-empty and in the log [%d..%d], the cache holds [%d..%d]: cached reader answered zero entries without reading the log",
-				a, b, first, log.last, shape.Lo, shape.Hi), true)
 		case kind == "cached" && log.has(a) && log.size(a) >= c.maxSize && (!shape.OK || (shape.N > 0 && shape.Lo < b && shape.Hi >= a)):
 			c.fail(sigFixSize, fmt.Sprintf("range [%d,%d) is non-empty, entry %d has size %d >= maxSize %d: cached reader answered zero entries (uncached reader answers one)",
 				a, b, a, log.size(a), c.maxSize), true)
